@@ -6,6 +6,10 @@ Driver for C16: `lvdriver_c16 run` (model outputs) / `lvdriver_c16 judge` (Spec 
 op     : `txn ex=<pct(JSON array of strings)> req=<pct(text)> resp=<pct(text)>`  one transaction through the
          flow-mode collector (request body then response body, one obfuscator);
          answer `req=<o> resp=<o>` with `<o>` = `ok:<pct(compact JSON)>` | `whole` | `empty` | `other`
+op     : `multi mode=<nest|conc> k=<n> n=<count> e0=<pct ex> d0=<pct text> e1=… d1=…`  `count` overlapping
+         `ObfuscateJSON` calls: `nest` = call i+1 runs from inside the hasher of call i at its k-th hashed
+         value (after it when there are fewer), `conc` = concurrent goroutines on one P;
+         answer `o0=<o> o1=<o> …` with `<o>` as for `txn` (or `err:parse`)
 op     : `obf side=<raw|req|resp> ex=<pct(JSON array of strings)> doc=<pct(JSON text)>`
 answer : `ok <pct(compact JSON)>`   the obfuscated document; a hashed leaf is the JSON string
                                     U+0001 `H(` pre-image `)` (the harness maps MD5 values back through
@@ -213,6 +217,19 @@ def answerTxn (t : TxnOp) : String :=
   let (a, b) := runTxn Hm t.ex (inputOf t.reqText) (inputOf t.respText)
   "req=" ++ fmtTok a ++ " resp=" ++ fmtTok b
 
+def parseMulti (ws : List String) : Option (List (List Str × String)) := do
+  let n ← kvNat ws "n"
+  (List.range n).mapM fun i => do
+    let e ← (kv ws s!"e{i}").bind (fun s => parseEx (pctDec s))
+    let d ← (kv ws s!"d{i}").map pctDec
+    pure (e, d)
+
+def multiCalls (cs : List (List Str × String)) : List (List Str × Input) := cs.map fun c => (c.1, inputOf c.2)
+
+def answerMulti (cs : List (List Str × String)) : String :=
+  let outs := runMany Hm (multiCalls cs)
+  " ".intercalate ((List.range outs.length).zip outs |>.map fun (i, o) => s!"o{i}=" ++ fmtTok o)
+
 def answer (o : Op) : String := fmtOutcome (run Hm o.side o.ex (input o))
 
 def runStep (_ : Unit) (line : String) : Unit × String :=
@@ -225,6 +242,10 @@ def runStep (_ : Unit) (line : String) : Unit × String :=
   | "txn" :: ws =>
     match parseTxn ws with
     | some t => ((), answerTxn t)
+    | none => ((), "bad-op")
+  | "multi" :: ws =>
+    match parseMulti ws with
+    | some cs => ((), answerMulti cs)
     | none => ((), "bad-op")
   | _ => ((), "bad-op")
 
@@ -271,6 +292,16 @@ def judgeTxn (t : TxnOp) (out : String) : Option String :=
     some ("- spec-violated-in-transaction body=" ++ bad ++ " ex=" ++ pctEnc (printJson (.arr (t.ex.map .str)))
       ++ " req=" ++ pctEnc (short t.reqText) ++ " resp=" ++ pctEnc (short t.respText) ++ " answer=" ++ pctEnc (short out))
 
+/-- overlapping calls: each answer against its own call (`Spec.holdsMany`) -/
+def judgeMulti (cs : List (List Str × String)) (out : String) : Option String :=
+  let ws := words out
+  let outs := (List.range cs.length).map fun i => ((kv ws s!"o{i}").map parseTok).getD .other
+  if holdsMany Hm (multiCalls cs) outs then none
+  else
+    let bad := ((List.range cs.length).zip ((multiCalls cs).zip outs)).find? fun (_, c, o) => !(holdsOutcome Hm .raw c.1 c.2 o)
+    let which := match bad with | some (i, _, _) => toString i | none => "?"
+    some ("- spec-violated-in-overlapping-calls call=" ++ which ++ " answer=" ++ pctEnc (short out))
+
 def record (s : JudgeSt) (r : Option String) : JudgeSt :=
   match r with
   | none => s
@@ -283,6 +314,10 @@ def judgeStep (s : JudgeSt) (op out : String) : JudgeSt :=
   | "txn" :: ws =>
     match parseTxn ws with
     | some t => record s (judgeTxn t out)
+    | none => s
+  | "multi" :: ws =>
+    match parseMulti ws with
+    | some cs => record s (judgeMulti cs out)
     | none => s
   | "obf" :: ws =>
     match parseOp ws with
